@@ -376,7 +376,7 @@ def cmd_check(prop, tier):
         nproc = max(m, nproc - nproc % m)
     procs = []
     for w in range(nproc):
-        outfile = os.path.join(OUT, "tmp", f"{prop}-{tier}-{seed}-{w}.jsonl")
+        outfile = os.path.join(OUT, "tmp", f"{prop}-{tier}-{seed}-{os.getpid()}-{w}.jsonl")   # pid: concurrent checks must not share files
         if os.path.exists(outfile):
             os.remove(outfile)
         env = dict(os.environ, BNPSIM_REPO=core.REPO)
@@ -407,6 +407,12 @@ def cmd_check(prop, tier):
                     violations.append(d)
                 elif d["type"] == "error":
                     errors.append(f"worker {w} run {d['index']}: {d['reason']}\n{d.get('tb') or ''}")
+        if done:
+            for fn in (outfile, outfile + ".err"):
+                try:
+                    os.remove(fn)
+                except OSError:
+                    pass
         if not done and not any(str(w) in e.split(" ")[1:2] for e in errors):
             tail = ""
             try:
